@@ -17,6 +17,8 @@ CLAIMED["C16"] = ("other", "Sibling/must-check rules on cmd/pql run and main wit
          "path facts (AST abstract interpreter) at call/return sites of cmd/pql")
 CLAIMED["C14"] = ("proof", "Absence of shared mutable state and ambient input is an effect property of the code, decided soundly by an interprocedural provenance/effect analysis over the SSA form of every function of the two library packages: every write is to call-local memory, globals are written only at init or under their own sync.Once, no goroutines/channels/time/rand/os/reflect/unsafe, map iteration order never reaches output, nil options guarded. All obligations must be discharged or the check fails.", "DESIGN.md §3 C14",
          "interprocedural effect/provenance analysis on go/ssa (allocation-site classes, fixpoint over call sites)")
+CLAIMED["C15"] = ("other", "Provenance of every cut offset in SplitStatements with path facts (only Span.Start/End of tokens known to be TokenSemi from Scan of the same string), tail piece unconditional, Parse's splitter tests the same kind on the same scan. That a piece scanned alone yields the same tokens depends on every lexer look-ahead and is not decided.", "DESIGN.md §3 C15",
+         "value-provenance rule with path facts (AST abstract interpreter)")
 NA = {}
 def main():
     props = [json.loads(l) for l in open('/verif/properties.jsonl')]
